@@ -203,7 +203,8 @@ def main() -> int:  # noqa: C901, PLR0912, PLR0915
         "haiway_head": head,
         "explanation": "every counted execution ran the real haiway code on a hand-stepped "
         "virtual-time asyncio loop (or directly, for pure input/history enumerations); "
-        "states = nodes of the explored choice tree, transitions = fresh edges",
+        "states = nodes of the explored choice tree (+ observed states after each checked library "
+        "operation), transitions = fresh edges (+ those operations)",
         "workers": jobs,
     }
     evidence = {
